@@ -233,12 +233,13 @@ impl World {
         match self.subs.get(id) {
             None => "st=-".to_string(),
             Some(s) => format!(
-                "st={} life={} ka={} sent={} nq={}",
+                "st={} life={} ka={} sent={} nq={} it={}",
                 s.verif_state(),
                 s.lifetime_counter(),
                 s.keep_alive_counter(),
                 crate::common::b(s.message_sent()),
-                s.verif_notifications_len()
+                s.verif_notifications_len(),
+                s.monitored_items_len()
             ),
         }
     }
